@@ -135,7 +135,7 @@ BINDINGS = [
     ("ws", "example.com", "/app/", "", "ws"),
 ]
 QUERIES = [None, "x=1&y=é", {"x": "a b"}, MultiDict([("k", "1"), ("k", "2"), ("e", "")])]
-EXTRA = {rr.STR: ["é", "a b", "a%20b"], rr.PATH: ["é/x y"]}
+EXTRA = {rr.STR: ["é", "a b", "a%20b", "x?y#z"], rr.PATH: ["é/x y"]}
 HOSTILE = ["//evil.com/a", "//evil.com//a/", "//evil.com", "/\\evil.com/a", "//evil.com/%2e%2e", "/é", "/a%20b", "/a b",
            "///evil.com/a//"]
 
